@@ -141,12 +141,15 @@ G2_NAMES = {1: 'bezier_by_line result differs from the model (roots from np.root
 OK_G3 = CHK + r'''
 Definition atol8 : Qc := @ATOL@.
 Definition tol12 : Qc := @TOL@.
+Definition ext0 : Qc := @EXT0@.      (* sqrt(tol_deC) as computed in binary64 *)
+Definition eps40 : Qc := @EPS40@.
 Definition casety : Type := (seg Qc * seg Qc * nat * nat * list (Qc * Qc))%type.
 Definition eps6 : Qc := two_pow_neg 20.
 Definition ok (c : casety) : nat :=
   let '(s1, s2, maxits, okind, obs) := c in
   let m := intersect NumQ atol8 (fun _ _ => Q2Qc 1) (fun _ => [])
-             (fun b1 b2 => bezier_intersections NumQ @RMFIX@ (bbox_quad NumQ) tol12 tol12 b1 maxits b2) no_arcK s1 s2 in
+             (fun b1 b2 => bezier_intersections NumQ @RMFIX@ @BXFIX@ @MGFIX@ (bbox_quad NumQ) tol12 tol12
+                              (eff_extent NumQ @RELFIX@ ext0 eps40 (bbox_quad NumQ) b1 b2) b1 maxits b2) no_arcK s1 s2 in
   match m with
   | IOk l => if negb (Nat.eqb okind 0) then 3
              else if lclose (pclose Qc_eq_bool Qc_eq_bool) l obs then 0      (* identical dyadic parameters, same order *)
@@ -289,8 +292,10 @@ def core_of(d1, d2):
 def resid_key(core, size, meta):
     if core == 'subdivision':
         # bezier_intersections stops on an ABSOLUTE box area (tol = 1e-12): the
-        # accuracy it delivers does not scale with the curves
-        return 'subdivision-residual-small-scale' if size < 0.1 else 'subdivision-residual'
+        # accuracy it delivers does not scale with the curves (pinned variant only)
+        if size < 0.1:
+            return ic.pinned_key('subdivision-residual-small-scale', ic.detect_variants()['rel_fixed'])
+        return 'subdivision-residual'
     if core == 'arc':
         return 'residual-arc-%s' % ('nearmiss' if meta.get('config') == 'nearmiss' else 'other')
     return 'residual-%s' % core
@@ -448,6 +453,9 @@ def run_pairs(rep, K, tmp, pairs, secs):
                       size)
             elif code == 5:
                 skey = 'swap-asymmetry-%s' % (ic.arc_branch(d1, d2) if core == 'arc' else core)
+                if skey == 'swap-asymmetry-arc-arc-subdivision' and size < 0.1:
+                    # seen at small scale only: the absolute stopping tolerance again
+                    skey = ic.pinned_key(skey, ic.detect_variants()['rel_fixed'])
                 if core == 'subdivision':
                     # one operand order loses a crossing to the remove-while-iterating loop (same
                     # cause as C12 subdivision-missed-crossing): pinned variant only
@@ -524,7 +532,16 @@ def tie_bezline(rng, K, tmp, n):
 
 def quad_maxits(s1, s2, tol=1e-12):
     longer = max(s1.length(), s2.length())
-    return int(math.ceil(1 - math.log(tol / longer) / math.log(2)))
+    mi = int(math.ceil(1 - math.log(tol / longer) / math.log(2)))
+    if ic.detect_variants()['rel_fixed']:
+        # the repaired variant adds levels for curves smaller than one unit
+        from svgpathtools.bezier import bezier_bounding_box
+        def ext(b):
+            return max(b[1] - b[0], b[3] - b[2])
+        size = max(ext(bezier_bounding_box(s1)), ext(bezier_bounding_box(s2)))
+        if 0 < size < 1:
+            mi += int(math.ceil(-math.log(size) / math.log(2)))
+    return mi
 
 
 def tie_worklist(rng, K, tmp, n, rep):
@@ -549,7 +566,11 @@ def tie_worklist(rng, K, tmp, n, rep):
         cases.append('(%s, %s, %d, %d, %s)' % (ic.seg_term(s1), ic.seg_term(s2), mi, k, ic.pairs_term(res)))
         meta.append((d1, d2, {'config': cfg}, res))
     okdef = OK_G3.replace('@ATOL@', qc(1e-8)).replace('@TOL@', qc(1e-12)).replace(
-        '@RMFIX@', common.coq_bool(ic.detect_variants()['rm_fixed']))
+        '@RMFIX@', common.coq_bool(ic.detect_variants()['rm_fixed'])).replace(
+        '@BXFIX@', common.coq_bool(ic.detect_variants()['bx_fixed'])).replace(
+        '@MGFIX@', common.coq_bool(ic.detect_variants()['mg_fixed'])).replace(
+        '@RELFIX@', common.coq_bool(ic.detect_variants()['rel_fixed'])).replace(
+        '@EXT0@', qc(math.sqrt(1e-12))).replace('@EPS40@', qc(2.0 ** -40))
     fails, errors = common.run_cases(tmp, '', 'casety', okdef, cases, shard=8, prefix='g3', timeout=600)
     div1 = [f for f in fails if f[1] == 1]
     hard = [f for f in fails if f[1] != 1]
@@ -761,7 +782,7 @@ def run(rep, tier, seed, replay=None):
         var = ic.detect_variants()
         rep.cov['implementation_variants'] = {k: v for k, v in var.items() if k != 'notes'}
         rep.notes += var['notes']
-        boost = 2 if (info['agree_failed'] or info['untranslated'].keys() - {'gen_bezier_by_line_2'}) else 1
+        boost = 2 if (info['agree_failed'] or info['untranslated'].keys() - {'gen_bezier_by_line_2', 'gen_box_extent'}) else 1
         if replay:
             r = json.load(open(replay))['replay']
             if r.get('kind') == 'path':
